@@ -12,16 +12,16 @@ REF_SOURCES = {'self.ref_path', 'self.stdout_path', 'self.stderr_path', 'self.re
 def check(run):
     p = run.prog
     from . import gentest_script
-    gentest_script.run_rule(run, p, 'C12')
-    mustemit(run, p, 'C12-ONEASSERT')
-    roles(run, p)
-    order(run, p)
-    exitcode(run, p)
-    unique(run, p)
-    strict(run, p)
-    exclprov(run, p)
-    cleanset(run, p)
-    deadattr(run, p)
+    run.attempt(gentest_script.run_rule, run, p, 'C12')
+    run.attempt(mustemit, run, p, 'C12-ONEASSERT')
+    run.attempt(roles, run, p)
+    run.attempt(order, run, p)
+    run.attempt(exitcode, run, p)
+    run.attempt(unique, run, p)
+    run.attempt(strict, run, p)
+    run.attempt(exclprov, run, p)
+    run.attempt(cleanset, run, p)
+    run.attempt(deadattr, run, p)
     from .common import gotcha_rule
     n = gotcha_rule(run, 'C12-WHOLESTR', p, ['tdda.referencetest.gentest', 'tdda.referencetest.utils', 'tdda.referencetest.diffrex'],
                     'names and machine-specific strings are handled whole: no constant written ("text") - a one-element tuple without '
